@@ -46,7 +46,7 @@ LEAN_MODULES = {
     "C16": ["TFV.Properties.Split", "TFV.Properties.Src.GetNJobs", "TFV.Properties.Src.SplitPop"],
     "C17": ["TFV.Properties.EA", "TFV.Properties.Heap", "TFV.Properties.Src.UpdateData"],
     "C18": ["TFV.Properties.Estim"],
-    "C19": ["TFV.Properties.Metrics", "TFV.Properties.Src.MetricCounts"],
+    "C19": ["TFV.Properties.Metrics", "TFV.Properties.Src.MetricCounts", "TFV.Properties.Src.MetricAccuracy"],
     "C20": ["TFV.Properties.Bench", "TFV.Properties.Src.BenchKernels"],
 }
 
@@ -76,7 +76,7 @@ SRC_KERNELS = {
     "C15": ["SHADE_generate_F_CR", "SHADE_update_u_F", "DE_greedy_replacement", "jDE_greedy_replacement", "SHADE_bookkeeping", "SHAGA_bookkeeping"],
     "C16": ["get_n_jobs", "EA_split_population"],
     "C17": ["EA_update_data"],
-    "C19": ["recall_counts", "precision_counts", "f1_counts"],
+    "C19": ["recall_counts", "precision_counts", "f1_counts", "Metrics_accuracy_score"],
 }
 
 
